@@ -37,6 +37,7 @@ int main(int argc, char** argv)
 		  for (int c = 1; c < 0x2200; c++) { if (c >= 0xD800 && c <= 0xDFFF) continue; int in[2] = { c, 0 }; char u8[8]; int n = utf32toUtf8(in, u8, 1); String one(u8, n); String a2 = String("x") + one + "yz";
 			String forms[2] = { a2.toLowerCase(), a2.toUpperCase() };
 			for (int f = 0; f < 2; f++) { bool want = a2.toLowerCase() == forms[f].toLowerCase(); if (a2.equalsNocase(forms[f]) != want || forms[f].equalsNocase(a2) != want) { printf("REPRODUCED equalsNocase of U+%04X and its %s-cased form (%d vs %d bytes) = %d, equality of the lower-cased forms = %d\n", c, f ? "upper" : "lower", a2.length(), forms[f].length(), (int)a2.equalsNocase(forms[f]), (int)want); return 1; }
+				if ((int)strlen(*forms[f]) != forms[f].length()) { printf("REPRODUCED %s-casing U+%04X: length() %d but the text ends after %d bytes\n", f ? "upper" : "lower", c, forms[f].length(), (int)strlen(*forms[f])); return 1; }
 				if (forms[f].length() > a2.length()) { printf("REPRODUCED case mapping of U+%04X produced more bytes than its input\n", c); return 1; } } }
 		  String m("MiXeD \xC3\x89\xC3\xA9 123"); if (m.toUpperCase() != "MIXED \xC3\x89\xC3\x89 123" || m.toLowerCase() != "mixed \xC3\xA9\xC3\xA9 123") { printf("REPRODUCED toUpperCase / toLowerCase of a mixed string\n"); return 1; } }
 		printf("OK\n"); return 0;
